@@ -215,6 +215,7 @@ func main() {
 	deadline := time.Now().Add(time.Duration(sec) * time.Second)
 	replayDir := filepath.Join(verifRoot(), "replays")
 	_ = os.MkdirAll(replayDir, 0o755)
+	_ = os.Remove(filepath.Join(replayDir, fmt.Sprintf("%s-%s-seed%d.json", *prop, tier, seed)))
 
 	type shardRes struct {
 		out  string
